@@ -35,8 +35,13 @@ Definition local_authentic (cf : fwconf) (a : addr) : bool :=
 Definition dir_rules (rules : list (bool * rule * bool)) (incoming : bool) : list rule :=
   map (fun x => snd (fst x)) (filter (fun x => Bool.eqb (fst (fst x)) incoming && snd x) rules).
 
+(* A port range wider than this is not built entry by entry inside Coq (1-65535 is 65535 map entries, the association
+   list is quadratic): such rule sets are evaluated with the rule-list matcher, which proofs/Firewall_drop.v
+   (drop_by_rules, new_firewall_some, add_rule_none) proves to give the same verdicts as the built tables. *)
+Definition wide (r : rule) : bool := (1000 <? r_end r - r_start r)%Z.
+
 (* run the probes through the model, threading the model's conntrack *)
-Fixpoint run_probes (c16 : bool) (cf : fwconf) (rules : list (bool * rule * bool)) (fw : firewall) (pl : pool)
+Fixpoint run_probes (c16 : bool) (cf : fwconf) (rules : list (bool * rule * bool)) (m : matcher) (pl : pool)
          (cs : conns) (ps : list probe) : list N :=
   match ps with
   | [] => []
@@ -44,8 +49,8 @@ Fixpoint run_probes (c16 : bool) (cf : fwconf) (rules : list (bool * rule * bool
       let cs0 := if pb_reset p then [] else cs in
       let h := hostinfo_of (my_nets cf) (pb_peer p) in
       let pkt := pb_pkt p in
-      let res := if pb_cached p then (drop fw (pb_in p) pkt h (pb_peer p) pl true, cs0)
-                 else drop_ct fw cs0 (pb_in p) pkt h (pb_peer p) pl in
+      let res := if pb_cached p then (drop_m m cf (pb_in p) pkt h (pb_peer p) pl true, cs0)
+                 else drop_ct_m m 0 cf cs0 (pb_in p) pkt h (pb_peer p) pl in
       let allowed := pb_class p =? 0 in
       let matches := existsb (rule_matches cf (pb_in p) pkt (pb_peer p) pl) (dir_rules rules (pb_in p)) in
       let addr_ok := remote_authentic cf (pb_peer p) (pk_remote pkt) && local_authentic cf (pk_local pkt) in
@@ -68,19 +73,25 @@ Fixpoint run_probes (c16 : bool) (cf : fwconf) (rules : list (bool * rule * bool
             (* allowed, whatever the rules, conntrack and cache: both addresses authentic *)
             (if allowed then flag 2 (remote_authentic cf (pb_peer p) (pk_remote pkt))
                              ++ flag 2 (local_authentic cf (pk_local pkt)) else []))
-      ++ run_probes c16 cf rules fw pl (snd res) rest
+      ++ run_probes c16 cf rules m pl (snd res) rest
   end.
 
 Definition check_gen (c16 : bool) (c : case) : list N :=
   match c with
   | CFw cf rules pl probes =>
       (* AddRule's error result, rule by rule: model (code 1) and the validity rule (code 2) *)
-      concat (map (fun x => flag 1 (Bool.eqb (is_some (add_rule cf (snd (fst x)) empty_table)) (snd x))
+      let inr := dir_rules rules true in
+      let outr := dir_rules rules false in
+      concat (map (fun x => flag 1 (Bool.eqb (if wide (snd (fst x)) then rule_valid (snd (fst x))
+                                              else is_some (add_rule cf (snd (fst x)) empty_table)) (snd x))
                             ++ (if c16 then flag 2 (Bool.eqb (rule_valid (snd (fst x))) (snd x)) else [])) rules)
-      ++ match new_firewall cf (dir_rules rules true) (dir_rules rules false) with
-         | None => [1]
-         | Some fw => run_probes c16 cf rules fw pl [] probes
-         end
+      ++ (if existsb wide (inr ++ outr) then
+            (if forallb rule_valid inr && forallb rule_valid outr
+             then run_probes c16 cf rules (rules_matcher cf inr outr) pl [] probes else [1])
+          else match new_firewall cf inr outr with
+               | None => [1]
+               | Some fw => run_probes c16 cf rules (table_matcher fw) pl [] probes
+               end)
   end.
 
 Definition check_c16 := check_gen true.
